@@ -34,12 +34,36 @@ EXPLANATION = (
     "the test failed (an empty dict only for an empty graph / share list), the read-back takes a share's server "
     "from the residual graph's row; (8) helpers: augmenting_path_for searches 0 -> len(graph)-1 through the BFS "
     "predecessors, residual_network reverses exactly the saturated edges (capacity 1, distinct rows), bfs enqueues "
-    "only WHITE vertices after colouring them and recording the predecessor. "
+    "only WHITE vertices after colouring them and recording the predecessor; (9) early exits: share_placement returns "
+    "anything but the full result only after finding `peers` empty, _servermap_flow_graph anything but its graph only "
+    "after finding servermap / shares / peers empty; (10) homeless distribution: a homeless share goes to component [1] "
+    "of the item taken from the priority queue in that iteration or to a key of the writable servermap that holds it, "
+    "queue items carry keys of the priority table or the server just taken, the priority table's keys (setdefault, "
+    "subscript and augmented stores) are keys of the writable servermap or guarded by a membership test in it, every "
+    "item taken is put back on every way through the iteration, the queue is filled from the table and read only after "
+    "the table / its source was found non-empty (Queue.get() blocks otherwise); (11) the selector acts on the "
+    "placement: get_share_placements returns the share_placement result, get_shareholders recomputes it after every "
+    "yield before _allocation_for reads it, _allocation_for(tracker) returns exactly the share numbers whose server is "
+    "tracker.get_serverid(), the allocation loop runs over the trackers of the writable servers and passes a tracker "
+    "over only when the request equals its buckets (or is empty), the retry loop is left early only on an unchanged "
+    "snapshot / its own condition / an empty local collection, _create_trackers makes every candidate known, "
+    "classifies by maxsize >= allocated_size and marks exactly the rest read-only; (12) a tracker taken off the "
+    "writable tracker list is also reported to the peer selector (or found not to be in its writable set), so the "
+    "next placement differs; (13) trackers of read-only servers are asked for existing shares, the answer handler "
+    "records each share with add_peer_with_share(<tracker id>, share) on the non-failure path, the Deferred is "
+    "collected and the collection awaited before the first placement. "
     "Undecided: that the flow found is maximum once (6)-(8) hold (termination/optimality of Edmonds-Karp), "
-    "PriorityQueue tie-breaking, set iteration order.")
+    "PriorityQueue tie-breaking, set iteration order; evenness of the homeless distribution (priority values and "
+    "increments) and the lease-renewal preference; the pruning of the phase-2 servermap in share_placement (it only "
+    "preserves existing allocations on writable servers: completeness, read-only exclusion and the size of the spread "
+    "do not depend on the phase-2 matching); constants that make the retry loop run at least once "
+    "(effective_happiness = -1, last_happiness = None), timeouts, the 2*N server window; existing shares of writable "
+    "servers (transfer saving only); what _buckets_allocated does with an answer (C06).")
 TECHNIQUE = ("static analysis: CFG cycle/reaching-definition alias rule (R9), normal-form index-space agreement, "
              "edge-fact dominance and set-difference-chain normal forms over share_placement, CFG x staleness "
-             "monitor and update-pair normal form for the placement's Edmonds-Karp copy")
+             "monitor and update-pair normal form for the placement's Edmonds-Karp copy, key-provenance chains and "
+             "must-follow (get/put) over the homeless distribution, must-precede with yield as kill for the "
+             "selector's use of the placement")
 
 HU = "immutable.happiness_upload"
 UP = "immutable.upload"
@@ -1871,6 +1895,8 @@ def run(ctx: Context):
                   "phase 3 places new shares on any remaining writable server and takes no servermap")
         # homeless set
         dh = [n for n in scfg.nodes if calls_at(n, "_distribute_homeless_shares")]
+        if len(dh) != 1:
+            raise AnchorVanished("share_placement: _distribute_homeless_shares call")
         cdh = calls_at(dh[0], "_distribute_homeless_shares")[0]
         r.site(sp, cdh, "homeless set")
         hs = arg(cdh, 1, "homeless_shares")
@@ -2370,7 +2396,7 @@ def run(ctx: Context):
         windex = [i for (i, s_) in enumerate(srcs_) if s_ is not None and s_ not in marked]
         if None in srcs_ or not windex or not marked:
             raise AnchorVanished("_create_trackers: tracker lists built from the writable / read-only server collections")
-        selm.update(gs=gs, gsl=gsl, cfg=gcfg2, pstores=pstores, ql=ql, windex=windex, ncomp=len(srcs_), SEL=SEL)
+        selm.update(gs=gs, gsl=gsl, cfg=gcfg2, pstores=pstores, ql=ql, windex=windex, ncomp=len(srcs_), SEL=SEL, qnode=qnode)
         it_e, it_at = unwrap(ql.iter), qhead
         for _ in range(4):
             if not isinstance(it_e, ast.Name):
@@ -2504,10 +2530,22 @@ def run(ctx: Context):
                         wnames.add(x.targets[0].elts[i].id)
         if not wnames:
             raise AnchorVanished("get_shareholders: writable tracker list unpacked from _create_trackers")
-        used_in_loop = {x.id for st in ql.body for x in ast.walk(st) if isinstance(x, ast.Name)}
+        # callbacks registered on the Deferred of the allocation query
+        qd = selm["qnode"].ast.targets[0].id if isinstance(selm["qnode"].ast, ast.Assign) and len(selm["qnode"].ast.targets) == 1 \
+            and isinstance(selm["qnode"].ast.targets[0], ast.Name) else None
+        if qd is None:
+            raise AnchorVanished("get_shareholders: the Deferred of <tracker>.query(..) is not kept in a variable")
+        qregs = [x for st in ql.body for x in ast.walk(st) if isinstance(x, ast.Call) and isinstance(x.func, ast.Attribute)
+                 and x.func.attr in ("addCallback", "addBoth", "addCallbacks") and attr_path(x.func.value) == qd and x.args]
+
+        def runs(t, name):
+            if isinstance(t, ast.Name):
+                return t.id == name
+            return isinstance(t, ast.Lambda) and any(isinstance(y, ast.Call) and isinstance(y.func, ast.Name) and y.func.id == name
+                                                     for y in ast.walk(t.body))
         demoters = []
         for (nm_, nf) in sorted(gs.nested.items()):
-            if nm_ not in used_in_loop or isinstance(nf.node, ast.Lambda):
+            if isinstance(nf.node, ast.Lambda) or not any(runs(x.args[0], nm_) for x in qregs):
                 continue
             if any(isinstance(x, ast.Call) and isinstance(x.func, ast.Attribute) and x.func.attr in ("remove", "discard", "pop")
                    and isinstance(x.func.value, ast.Name) and x.func.value.id in wnames for x in func_own_nodes(nf)):
@@ -2531,7 +2569,23 @@ def run(ctx: Context):
         for nf in demoters:
             r.site(nf, None, "writable tracker demoted")
             ncfg = nf.cfg()
-            a_bad = find_path_avoiding(ncfg, lambda x: x.kind == "exit", gate_edge=tells_selector)
+            # told, or found not to be among the selector's writable servers (then it already is read-only or bad)
+            nnorm = FlowNorm(nf)
+            marks = [(m, c) for m in ncfg.nodes for c in node_calls(m) if call_tail(c) in ("mark_readonly_peer", "mark_bad_peer")
+                     and isinstance(c.func, ast.Attribute) and len(c.args) == 1]
+            known = {(nnorm.norm(m, c.args[0]), "%s.peers" % nnorm.norm(m, c.func.value)) for (m, c) in marks}
+
+            def told_or_not_writable(n, lab, _nn=nnorm, _known=known):
+                if tells_selector(n):
+                    return True
+                f = _nn.edge_fact(n, lab)
+                return bool(f) and f[0] == "not in" and (f[1], f[2]) in _known
+            a_bad = find_path_avoiding(ncfg, lambda x: x.kind == "exit", gate_edge=told_or_not_writable)
+            if not a_bad:
+                for (m, c) in marks:
+                    who = nnorm.norm(m, c.args[0])
+                    r.require(any(who == "%s.get_serverid()" % p_ for p_ in nf.params), nf, nf.loc(c),
+                              "%s tells the peer selector about %s, not about the server of the tracker it was given" % (nf.name, who))
             if a_bad and b_bad:
                 r.violation(nf, nf.loc(), "%s takes the tracker off %s but the peer selector is not told (no mark_readonly_peer / "
                             "mark_bad_peer here, and _buckets_allocated returns without it when nothing was allocated): the "
